@@ -119,6 +119,37 @@ def pedersenVerify (M : Mat F) (labels : List Nat) (V : List G) (g h : G) (id : 
 def pedersenColumn (rg rh : List F) (g h : G) : List G :=
   List.zipWith (fun a b => a • g + b • h) rg rh
 
+/-! ### Objects with a history
+
+The library's `VerificationVector` is a mutable object: `Value()` hands out the matrix (in-place
+setters), `UnmarshalCBOR` overwrites a used object.  `VVObject` is such an object *with everything
+that happened to it*; verification of an object is by definition verification of the value it
+holds now.  The `@reuse` lines of the C05 stream are checked against exactly this: the driver
+gets the current value only and answers as for a fresh object. -/
+
+/-- a verification-vector object: the value it holds now and the values it held (and was used
+with) before -/
+structure VVObject (G : Type) where
+  value : List G
+  history : List (List G)
+
+/-- a freshly built object -/
+def VVObject.fresh (V : List G) : VVObject G := ⟨V, []⟩
+
+/-- any in-place change (`SetAssign`, `OpAssign`, `UnmarshalCBOR`, …): the new value replaces
+the old one, which moves to the history -/
+def VVObject.update (o : VVObject G) (V : List G) : VVObject G := ⟨V, o.value :: o.history⟩
+
+/-- `Scheme.Verify` on an object -/
+def feldmanVerifyObject (M : Mat F) (labels : List Nat) (o : VVObject G) (g : G) (id : Nat)
+    (s : List F) : Bool :=
+  feldmanVerify M labels o.value g id s
+
+/-- `pedersen.Scheme.Verify` on an object -/
+def pedersenVerifyObject (M : Mat F) (labels : List Nat) (o : VVObject G) (g h : G) (id : Nat)
+    (s b : List F) : Bool :=
+  pedersenVerify M labels o.value g h id s b
+
 end Group
 
 /-- the extractor of Pedersen binding: from two openings `(s, b)`, `(s', b')` of the same
